@@ -146,6 +146,8 @@ func propC02(w *World, r *Report) {
 	RunLoopControls(r)
 	RunAllocControls(r)
 	RunNilControls(r)
+	r.Conds["monotone-stores:cff.readIndex"] = condMonotoneStores(w, br, "cff.readIndex", false)
+	r.Conds["monotone-stores:glyf.decodeLoca"] = condMonotoneStores(w, br, "glyf.decodeLoca", true)
 	r.Conds["charstring-budget"] = condGlobalBudget(w, "(*cff.decodeInfo).decodeCharString")
 	r.Conds["format12-budget"] = condExpansionBudget(w, "cmap.decodeFormat12")
 	r.Conds["glyphheight-guarded"] = func() (bool, string) {
